@@ -102,6 +102,10 @@ func (t *Trans) wfOf(term string, typ types.Type, st State) string {
 		return fmt.Sprintf("(val_wf %s %s)", term, st.get("alloc"))
 	case "Func":
 		return fmt.Sprintf("(<= (rid (fenv %s)) %s)", term, st.get("alloc"))
+	case "Str":
+		return fmt.Sprintf("(bvult (slen %s) LENMAX)", term)
+	case "Bytes":
+		return fmt.Sprintf("(bvult (blen %s) LENMAX)", term)
 	}
 	if si, ok := t.env.structs[t.env.SortOf(typ)]; ok {
 		var parts []string
@@ -328,6 +332,13 @@ func (t *Trans) execInstr(fr *Frame, in ssa.Instruction) {
 	case *ssa.Convert:
 		fr.vals[x] = t.define(env.SortOf(x.Type()), fr.name(x), t.convert(fr, x))
 	case *ssa.MakeInterface:
+		// interfaces declared in the clover packages never hold a nil pointer: checked here, where the
+		// interface value is made, and assumed where a method is invoked on it
+		if t.P.cloverIface(x.Type()) {
+			if _, isPtr := x.X.Type().Underlying().(*types.Pointer); isPtr && !fr.nonNullSyntactic(x.X) {
+				t.safe(fr, "boxed-nil."+smtSym(x.Name()), fmt.Sprintf("(not (= %s null))", fr.val(x.X)), x.Pos())
+			}
+		}
 		fr.vals[x] = t.define("Val", fr.name(x), t.box(fr.val(x.X), x.X.Type()))
 		if ci, ok := fr.closures[x.X]; ok {
 			fr.closures[x] = ci
